@@ -108,6 +108,14 @@ impl<TLiteral: Debug + Clone + Eq + Ord> TruthTable<TLiteral> {
     }
 }
 
+#[cfg(feature = "verif")]
+impl<TLiteral: Debug + Clone + Eq + Ord> TruthTable<TLiteral> {
+    /// Verification hook: the private vectors as they are stored.
+    pub fn verif_raw(&self) -> (&[TLiteral], &[bool]) {
+        (&self.inputs, &self.outputs)
+    }
+}
+
 impl<TLiteral: Debug + Display + Clone + Eq + Ord> TruthTable<TLiteral> {
     fn header_row_iterator(&self) -> impl Iterator<Item = String> + '_ {
         self.inputs
